@@ -38,8 +38,8 @@ CONSTANT Lits          \* literal dictionary: x.v (repr text) |-> integer value
 
 \* Switch used ONLY to recognise known deviations of reader.alchemy (never the requirement): with the key "$asis"
 \* in the literal dictionary the semantics is the AS-IS rendering - a cross join emitted as FULL OUTER JOIN ON
-\* true, and Not mapped to python's "not" (constant TRUE for an equality of two different operands, FALSE for
-\* identical ones, no SQL at all - an exception - for any other operand).
+\* true, and Not mapped to python's "not" (a constant: the negated python truth value of the operand's target
+\* code, defined for == / != / nested not only; no SQL at all - an exception - for any other operand).
 AsIs == "$asis" \in DOMAIN Lits
 
 NULL == -9999
@@ -110,6 +110,15 @@ Agg(fn, e, keys, grp) ==
       [] OTHER -> Poison     \* avg has no integer value: only OutVal knows it
 \* value of feature e in the row (positions named by keys); grp = the rows of the group for aggregates
 \* (the operands are named once - a1, a2 are evaluated lazily, a2 only by the binary operators)
+\* AS-IS only: python's truth value of the target code of a predicate (SQLAlchemy defines it for == and != by
+\* comparing the operands' identity, python's "not" negates it; -1 = undefined: the parser raises)
+RECURSIVE PyTruth(_)
+PyTruth(a) ==
+    IF a.f # "op" THEN -1
+    ELSE IF a.op = "eq" THEN B(a.args[1] = a.args[2])
+    ELSE IF a.op = "ne" THEN B(a.args[1] # a.args[2])
+    ELSE IF a.op = "not" THEN (IF PyTruth(a.args[1]) = -1 THEN -1 ELSE 1 - PyTruth(a.args[1]))
+    ELSE -1
 OpVal(e, a1, a2) ==
     CASE e.op \in Compare -> Cmp(e.op, a1, a2)
       [] e.op \in Arith -> Ari(e.op, a1, a2)
@@ -117,8 +126,7 @@ OpVal(e, a1, a2) ==
       [] e.op = "or" -> Or3(a1, a2)
       [] e.op = "not" ->
            IF ~AsIs THEN Not3(a1)
-           ELSE IF e.args[1].f = "op" /\ e.args[1].op = "eq" THEN B(e.args[1].args[1] # e.args[1].args[2])
-           ELSE Poison
+           ELSE IF PyTruth(e.args[1]) = -1 THEN Poison ELSE 1 - PyTruth(e.args[1])
       [] e.op = "isnull" -> B(a1 = NULL)
       [] e.op = "notnull" -> B(a1 # NULL)
       [] e.op = "abs" -> IF a1 = NULL THEN NULL ELSE Abs(a1)
